@@ -267,8 +267,11 @@ impl Scenario for C15Histories {
         let mut merges = 0u32;
         let mut sorts_with_effect = 0u32;
         let mut step = 0usize;
+        cx.tape.begin_group();
         while step < nops {
             step += 1;
+            cx.tape.end_group();
+            cx.tape.begin_group();
             let op = if sort_run_left > 0 {
                 sort_run_left -= 1;
                 2
